@@ -43,6 +43,21 @@ func runC02(s *kernel.Sim) {
 	gcS := tp.Range(1, 2)
 	withParent := tp.Chance(1, 3)
 	maxP := int64(tp.Range(1, 3))
+	// the internal limit below the concurrency parent is a (never exhausted) fixed
+	// window in a third of the parent runs: its requests hold slots of the parent only
+	childFixed := withParent && tp.Chance(1, 2)
+	if childFixed {
+		maxC = 100000
+	}
+	// the parent's filter covers the internal limit's URL (a.com/* above a.com/c), as
+	// an internal limit that refines its parent does; always so for a fixed-window
+	// child, whose own system flow has no release step: the parent's has
+	parentWild := childFixed || (withParent && tp.Chance(1, 2))
+	s.Knobs["parent_filter_covers_child"] = parentWild
+	parentURL := "a.com/p"
+	if parentWild {
+		parentURL = "a.com/*"
+	}
 	withEarlyFlow := tp.Chance(1, 3)
 	// a second, never exhausted quota (a rate limit) on the same URL: 0 none,
 	// 1 only defined (its system flow still counts every request), 2 checked by a
@@ -58,6 +73,7 @@ func runC02(s *kernel.Sim) {
 	G := time.Duration(gcS) * time.Second
 	s.Knobs["max"], s.Knobs["exp_s"], s.Knobs["gc_s"] = maxC, expS, gcS
 	s.Knobs["parent_max"], s.Knobs["early_flow"], s.Knobs["lock_sites"] = map[bool]int64{true: maxP, false: 0}[withParent], withEarlyFlow, density
+	s.Knobs["child_is_fixed_window"] = childFixed
 	s.Knobs["rate_quota"] = []string{"none", "defined", "limiter-first", "limiter-second"}[withRate]
 
 	live := &fakeLiveness{}
@@ -82,10 +98,14 @@ func runC02(s *kernel.Sim) {
 	}
 	if withParent {
 		q.WriteString("quotas:\n")
-		conc("qp", "a.com/p", maxP, "")
+		conc("qp", parentURL, maxP, "")
 		rate()
 		q.WriteString("internal_limits:\n")
-		conc("qc", "a.com/c", maxC, "qp")
+		if childFixed {
+			q.WriteString("  - id: qc\n    parent_id: qp\n    filter:\n      url: a.com/c\n    strategy:\n      fixed_window:\n        max: 100000\n        interval: 1\n        interval_unit: minute\n")
+		} else {
+			conc("qc", "a.com/c", maxC, "qp")
+		}
 		files["flows/fp.yaml"] = limiterFlow("fp", "a.com/p", "qp").YAML()
 	} else {
 		q.WriteString("quotas:\n")
@@ -293,7 +313,11 @@ func runC02(s *kernel.Sim) {
 		}
 		var ps []*c02txn
 		got := int64(0)
-		for i := int64(0); i <= limitOf(level)+1; i++ {
+		bound := limitOf(level)
+		if level == 0 && withParent && maxP < bound {
+			bound = maxP
+		}
+		for i := int64(0); i <= bound+1; i++ {
 			n++
 			t := &c02txn{id: fmt.Sprintf("p%d", n), level: level}
 			txns = append(txns, t)
